@@ -310,6 +310,10 @@ type runA struct {
 	tags     []string
 	lastHow  string
 	dirty    bool // a close did not see the writer drain: the directory is not reused
+	// poisoned: a crash restart of this history found persisted candidate records (context.data) that
+	// are older than the stable account state. Every later list of the history may be computed from
+	// them (startup list, index rebuilt from them): one cause, one fingerprint class.
+	poisoned bool
 }
 
 func (c *runA) viol(fp, what string) {
@@ -403,11 +407,14 @@ func toEntries(l []*store.Candidate) []entry {
 	return out
 }
 
-// pathOfUpdateTop re-evaluates the branch conditions of CBlock.Ranking / updateTop on the list the
-// implementation really published for the parent (the self-check "all four branches hit" is about
-// the alphabet: which branch the unchanged code takes for this input).
+// pathOfUpdateTop re-evaluates the branch conditions of CBlock.Ranking / updateTop (as of /repo
+// 8324cdc: Ranking is skipped only when the block has neither a vote log nor an unregistered account;
+// the merged list is kept when its minimum does not rank behind the old one by votes and address) on
+// the list the implementation really published for the parent. The self-check "all four branches
+// hit" is about the alphabet: which branch the reference code takes for this input; the names also go
+// into the fingerprints.
 func pathOfUpdateTop(oldTop []entry, voteLogs []entry, unreg map[common.Address]bool) string {
-	if len(voteLogs) == 0 {
+	if len(voteLogs) == 0 && len(unreg) == 0 {
 		return "no-vote-log(ranking-skipped)"
 	}
 	if len(oldTop) < listLimit {
@@ -432,7 +439,9 @@ func pathOfUpdateTop(oldTop []entry, voteLogs []entry, unreg map[common.Address]
 	if len(oldTop) > len(newTop) {
 		return "list-shrunk(re-rank-from-index)"
 	}
-	if newTop[len(newTop)-1].votes >= oldTop[len(oldTop)-1].votes {
+	newMin, oldMin := newTop[len(newTop)-1], oldTop[len(oldTop)-1]
+	behind := newMin.votes < oldMin.votes || (newMin.votes == oldMin.votes && bytes.Compare(newMin.addr[:], oldMin.addr[:]) > 0)
+	if !behind {
 		return "min-not-lower(merge)"
 	}
 	return "min-lower(re-rank-from-index)"
@@ -662,6 +671,20 @@ func (c *runA) crashInStabilise(b int) (reached bool) {
 	c.dropUnconfirmed()
 	c.restarts++
 	c.crashes++
+	pers, perr := c.db.Context.GetCandidates()
+	must(perr)
+	have := map[string]int64{}
+	for _, e := range toEntries(pers) {
+		have[e.name] = e.votes
+	}
+	for _, e := range registeredOf(c.blocks[c.stable].cs) {
+		if v, ok := have[e.name]; !ok || v != e.votes {
+			if !c.poisoned {
+				count("crash_leaves_stale_persisted_candidate_records", 1)
+			}
+			c.poisoned = true
+		}
+	}
 	c.blocks[c.stable].how = "startup-after-crash-at-context.data-flush"
 	c.lastHow = c.blocks[c.stable].how
 	count("branch:startup-after-crash-at-context.data-flush", 1)
@@ -848,7 +871,12 @@ func (c *runA) indexState(o obsA) string {
 	return "index-complete"
 }
 
+const poisonedClass = "top-list/after-crash-at-context.data-flush(persisted-candidate-records-stale)"
+
 func (c *runA) fingerprint(o obsA) string {
+	if c.poisoned {
+		return poisonedClass
+	}
 	fp := fmt.Sprintf("top-list/%s/list-computed-by=%s", c.diffKind(o), o.b.how)
 	if strings.Contains(o.b.how, "re-rank-from-index") {
 		fp += "/" + c.indexState(o)
